@@ -89,6 +89,7 @@ func init() {
 		"(reflect.rtype).NumField":        ext۰reflect۰rtype۰NumField,
 		"(reflect.rtype).NumIn":           ext۰reflect۰rtype۰NumIn,
 		"(reflect.rtype).NumMethod":       ext۰reflect۰rtype۰NumMethod,
+		"(reflect.rtype).MethodByName":    ext۰reflect۰rtype۰MethodByName,
 		"(reflect.rtype).NumOut":          ext۰reflect۰rtype۰NumOut,
 		"(reflect.rtype).Out":             ext۰reflect۰rtype۰Out,
 		"(reflect.rtype).Size":            ext۰reflect۰rtype۰Size,
